@@ -773,6 +773,18 @@ func writeTranslations(repo, outdir string, fset *token.FileSet, parse func(stri
 		"Write", "WriteString", "WriteByte", "WriteRune", "RedactableBytes", "RedactableString", "String", "TakeRedactableBytes", "Len"} {
 		emit("internal/buffer/buffer.go", "Buffer", n, n, bconsts, bctypes)
 	}
+	// internal/escape/escape.go: the scanner, with its loops and index arithmetic (loop mode)
+	{
+		f := parse("internal/escape/escape.go")
+		fd := find(f, "", "InternalEscapeBytes")
+		if fd == nil {
+			allBad = append(allBad, "missing function InternalEscapeBytes")
+		} else {
+			txt, bad := translateLoopFunc(fset, fd, "InternalEscapeBytes", bconsts, cints)
+			fmt.Fprintf(&sb, "/-! translated from internal/escape/escape.go: func InternalEscapeBytes (loop mode) -/\n%s\n", txt)
+			allBad = append(allBad, bad...)
+		}
+	}
 	sb.WriteString("end Redact.Trans\n")
 	out := filepath.Join(outdir, "Trans.lean")
 	old, _ := os.ReadFile(out)
